@@ -4,10 +4,10 @@ import itertools
 import random
 import z3
 
-from sx import core as S, env as E, pl, plh, families as F, known
+from sx import wd, core as S, env as E, pl, plh, families as F, known
 
 PROPERTY = "C04"
-REGIONS = ["ctor", "json", "cicje", "All", "Any", "AtLeast", "AtMost", "Xor", "ExactlyOne", "XNor", "Imply", "Not", "str-leaves"]
+REGIONS = ["ctor", "json", "cicje", "All", "Any", "AtLeast", "AtMost", "Xor", "ExactlyOne", "XNor", "Imply", "Not", "str-leaves", "named-compound-plain-and-negated"]
 BOUNDS = ("formulas with <=7 connective nodes over <=4 boolean leaves, depth<=3 (curated + seeded; thorough adds all 2-level "
           "formulas over 3 leaves); every 0/1 assignment (symbolic); AtLeast/AtMost k symbolic (|k|<=2^20) on explicitly named nodes; "
           "rule dictionaries: every ruleType x relation x {0,1,2} sub-conditions")
@@ -104,6 +104,11 @@ def instantiations(tier, seed):
                F.N("Imply", F.AL(2, F.N("All", F.a(), F.b()), F.N("Any", F.c(), F.d()), id="B", sign=None), F.a(), id="A"),
                F.N("Not", F.N("XNor", F.N("All", F.a(), F.b()))), F.N("Imply", F.N("XNor", F.N("Any", F.a(), F.b())), F.c()),
                F.N("Not", F.N("Not", F.AL(1, F.N("Any", F.a(), F.b()), id="B", sign=None)))]
+    nA = lambda: F.N("All", F.a(), F.b(), id="B")     # noqa
+    nB = lambda: F.N("Any", F.c(), F.d(), id="C")     # noqa
+    basics += [F.N("XNor", nA(), nB(), id="A"), F.N("Any", nA(), F.N("Not", nA()), id="A"), F.N("Imply", nA(), nA(), id="A"),
+               F.N("All", F.N("Imply", nA(), F.c()), F.N("Imply", F.d(), nA()), id="A"), F.N("Xor", nA(), F.N("Not", nB()), nB(), id="A"),
+               F.N("All", F.N("XNor", nA(), F.c()), F.N("Any", nA(), F.d()), id="A")]
     routed = [(sk, how) for sk in basics for how in ("ctor", "json", "ctor-str")]
     routed += [(sk, ["ctor", "json", "ctor-str"][k % 3]) for k, sk in enumerate(skels)]
     for k, (sk, how) in enumerate(routed):
@@ -173,8 +178,15 @@ def run_inst(spec, run):
         return _run_cic(ns, spec, run)
     model_spec = spec["model"]
     rep = pl.build(ns, model_spec, plh.mid_env(model_spec))
+    reused = False
     if rep.errors() != []:
-        return run.skipped("model fails the repository's own validation (errors() != [])")
+        # C04 is about evaluation and is not restricted to validated models.  A model whose SPEC gives every id one definition can still fail
+        # errors(): negation keeps an explicit id, so XNor / Not / Imply over a named compound hold that compound and its negation under one id.
+        # Such models are kept; models whose spec itself is ambiguous (one id, two definitions / leaf and compound / cycles) are skipped.
+        env0 = plh.mid_env(model_spec)
+        if not wd.welldefined(model_spec, lambda x: pl.P(env0, x), lambda a, b: a == b, all, True, False):
+            return run.skipped("the instantiation itself gives one id two definitions")
+        reused = True
     oracle_spec = _mut_spec(model_spec, mu) if mu else model_spec
 
     def fn(ctx):
@@ -205,6 +217,8 @@ def run_inst(spec, run):
             return {"env": plh.conc_env(m, env), "vals": plh.conc_vals(m, vals)}
         kn = {"negate-mixed": res["kn"]}
         run.region("ctor" if how.startswith("ctor") else how)
+        if reused:
+            run.region("named-compound-plain-and-negated")
         if how == "ctor-str":
             run.region("str-leaves")
         for c in pl.compounds(model_spec):
